@@ -62,9 +62,16 @@ def extract_relation(ctx, fns):
             f = f.parent
         top = chain[-1]
         label = None
+        matched = None
         tl = tuple_local(top.body, f"({STATE}, {CTRL})")
         if tl is not None:
             label = top.state.get((('l', tl), (('f', '1', '{tuple}', '-'),)))
+            matched = top.state.get((('l', tl), (('f', '0', '{tuple}', '-'),)))
+        # a transition made of reset() (-> Closed) followed by set_state(X) inside one arm of `match (state, control)`
+        # leaves from the state that arm matched, not from the transient Closed
+        if frm == frozenset(['Closed']) and matched is not None and len(matched) == 1 and matched != frm and len(chain) == 2 \
+                and chain[0].body.key.endswith('::set_state'):
+            frm = matched
         site = (top.body.key, top.body.block_line(top.bb))
         key = (top.body.key.split('::')[-1], frm, label, to)
         rel.setdefault(key, set()).add(site)
